@@ -1,6 +1,7 @@
 package main
 
 import (
+	"math"
 	"fmt"
 	"math/rand"
 	"strings"
@@ -288,6 +289,20 @@ func opMate(g *G, method string) (interface{}, []uint64, int, interface{}) {
 	f1, f2 := float64(g.intn(4)), float64(g.intn(4))
 	if g.chance(0.3) {
 		f1, f2 = g.f64()*10, g.f64()*10
+	}
+	if g.chance(0.15) {
+		// near ties: strictly ordered fitness values that differ by one ulp up to 1e-7 (a tolerance-based comparison is not a tie rule)
+		f1 = 0.5 + g.f64()*10
+		switch g.intn(4) {
+		case 0:
+			f2 = math.Nextafter(f1, math.Inf(1))
+		case 1:
+			f2 = math.Nextafter(f1, math.Inf(-1))
+		case 2:
+			f2 = f1 + 1e-9*(1+g.f64()*99)
+		default:
+			f2 = f1 - 1e-9*(1+g.f64()*99)
+		}
 	}
 	beforeA, beforeB := dumpGenome(a), dumpGenome(b)
 	childId := g.intn(1000)
